@@ -174,7 +174,42 @@ def boundary_history(ctx):
     return L, 0, 1760, {"flavour": flav, "free_after_72_blocks": f, "variant": variant, "episode": ops}
 
 
-FORCED_KINDS = ["append-across-72", "create-file", "mkdir-cache-grows", "mkdir-cache-fits", "comment-then-mkdir", "create-file-cache-grows", "rename-longer-cache-grows"]
+def short_write_then(ctx):
+    """a write that comes back short because the volume is full, followed - on the same handle - by a seek, a read, a truncate or
+    nothing, then close: what the write reported as stored must be there afterwards (the last block it filled is still only
+    buffered when the allocation of the next one fails)"""
+    rng = ctx.rng
+    flav = rng.choice(gen.FLAVOURS)
+    bs = 512 if flav & 1 else 488
+    k = rng.choice([5, 20, 40, 75, 80])       # free blocks left for the file under test (header included)
+    L = gen.dev_create("DD", flav) + ["mountdev 0", "mount 0 0",
+        "open 0 - %s w" % hexs(b"sacr"), "write 0 24 %d" % ((k - 1 - (1 if k > 73 else 0)) * bs), "close 0",
+        "open 1 - %s w" % hexs(b"filler"), "nospace 1", "write 1 23 %d" % (2000 * bs), "nospace 0", "close 1",
+        "rm - %s" % hexs(b"sacr"), "free", "nospace 1",
+        "open 2 - %s w" % hexs(b"target")]
+    chunks = rng.choice([[(k + 30) * bs], [3 * bs] * ((k + 30) // 3), [(k - 2) * bs, 7 * bs], [bs // 2] * (2 * k + 20)])
+    for i, c in enumerate(chunks):
+        L += ["write 2 %d %d" % (31 + i % 50, c)]
+    after = rng.choice(["seek0", "seekmid", "seek-eof", "trunc-same", "trunc-less", "flush", "none", "seek0-write"])
+    L += ["stat 2"]
+    if after == "seek0":
+        L += ["seek 2 0"]
+    elif after == "seekmid":
+        L += ["seek 2 %d" % (2 * bs + 5)]
+    elif after == "seek-eof":
+        L += ["seek 2 %d" % (2000 * bs)]
+    elif after == "trunc-less":
+        L += ["trunc 2 %d" % (3 * bs + 1)]
+    elif after == "flush":
+        L += ["flush 2"]
+    elif after == "seek0-write":
+        L += ["seek 2 0", "write 2 99 10"]
+    L += ["close 2", "nospace 0", "free", "dump $W/img1", "spectree", "open 3 - %s r" % hexs(b"target"), "read 3 %d" % (400 * bs), "close 3",
+          "umount", "umountdev", "mountdev 0", "mount 0 0", "open 3 - %s r" % hexs(b"target"), "read 3 %d" % (400 * bs), "close 3", "free", "umount", "umountdev"]
+    return L, 0, 1760, {"flavour": flav, "free_blocks_for_the_file": k, "chunks": len(chunks), "then": after}
+
+
+FORCED_KINDS = ["append-across-72", "create-file", "mkdir-cache-grows", "mkdir-cache-fits", "comment-then-mkdir", "create-file-cache-grows", "rename-longer-cache-grows", "comment-cache-grows"]
 
 
 def forced_history(ctx, _state={"i": 0}):
@@ -203,6 +238,8 @@ def forced_history(ctx, _state={"i": 0}):
         ep = ["allocfail %d" % j, "mkdir %s %s" % (kd, hexs(b"e20_sixteen_ch")), "allocfail 0"]
     elif kind == "create-file-cache-grows":
         ep = ["allocfail %d" % j, "open 2 %s %s w" % (kd, hexs(b"e21_sixteen_ch")), "allocfail 0", "write 2 5 10", "close 2"]
+    elif kind == "comment-cache-grows":
+        ep = ["allocfail %d" % j, "comment %s %s %s" % (kd, hexs(b"e04_sixteen_ch"), hexs(b"a comment that makes the record outgrow its block")), "allocfail 0"]
     elif kind == "rename-longer-cache-grows":
         ep = ["allocfail %d" % j, "mv %s %s %s %s" % (kd, hexs(b"e03_sixteen_ch"), kd, hexs(b"e03_a_name_of_thirty_characters")), "allocfail 0"]
     else:
@@ -223,7 +260,8 @@ def run(ctx):
     others = {}
     gens = ([("real-exhaustion", exhaustion_history)] * (8 if ctx.tier == "quick" else 300) +
             [("extension-boundary-exhaustion", boundary_history)] * (12 if ctx.tier == "quick" else 300) +
-            [("forced-exhaustion", forced_history)] * (56 if ctx.tier == "quick" else 840))
+            [("short-write-then", short_write_then)] * (16 if ctx.tier == "quick" else 300) +
+            [("forced-exhaustion", forced_history)] * (64 if ctx.tier == "quick" else 960))
     built = [(label,) + tuple(fn(ctx)) for (label, fn) in gens]
     results = common.pmap(lambda b: hist.run_history(ctx, b[1], first=b[2], nblocks=b[3], spec_patch=spec_patch, ignore_names=FILLERS), built)
     for (label, L, first, nb, meta), r in zip(built, results):
@@ -262,7 +300,7 @@ def run(ctx):
             ctx.failures[0]["input"]["minimised_script"] = M
         except Exception:
             pass
-    rule = ("extension-boundary exhaustion: exactly 73+f blocks free (f = 0..3) when a file grows through a multiple of 72 data blocks (one write, chunks, append after close, second boundary); real exhaustion: DD floppy pre-filled leaving k = 0..5 free blocks, then 1-3 block-hungry operations (create+write at several alignments, mkdir, append across "
+    rule = ("short write on a full volume followed on the same handle by seek / truncate / flush / nothing, then close and read back; extension-boundary exhaustion: exactly 73+f blocks free (f = 0..3) when a file grows through a multiple of 72 data blocks (one write, chunks, append after close, second boundary); real exhaustion: DD floppy pre-filled leaving k = 0..5 free blocks, then 1-3 block-hungry operations (create+write at several alignments, mkdir, append across "
             "the 72-block extension boundary, grow by truncate, longer comment / entry in a nearly full cache block); forced exhaustion: allocation request j = 1..4 of the call "
             "and all later ones fail; all six flavours; checked: result vs model replayed with the accepted byte count, bystander files, decoder (structure + accounting) "
             "before/after/after remount, refill to same capacity; distinct = distinct script")
